@@ -80,42 +80,62 @@ func (r *Repository) GetEntriesInTree(treeID Hash) ([]TreeEntry, error) {
 	// of being on Ubuntu 22.04. 22.04 is still widely used in WSL2 environments.
 	// So, we're removing --format and parsing the output differently to handle
 	// the extra information for each entry we don't need.
-	stdOut, err := r.executor("ls-tree", treeID.String()).executeString()
+	// -z: file names are NUL terminated and never quoted, so that names with
+	// spaces, quotes, control or non-ASCII characters are read verbatim
+	lines, err := r.executor("ls-tree", "-z", treeID.String()).executeNULTerminated()
 	if err != nil {
 		return nil, fmt.Errorf("unable to enumerate items in tree '%s': %w", treeID.String(), err)
 	}
 
-	if stdOut == "" {
+	if len(lines) == 0 {
 		return nil, nil // alternatively, just check if treeID is empty tree?
 	}
 
-	lines := strings.Split(stdOut, "\n")
 	entries := make([]TreeEntry, 0, len(lines))
 	for _, line := range lines {
-		// Without --format, the output is in the following format:
-		// <mode> SP <type> SP <object> TAB <file>
-		// From: https://git-scm.com/docs/git-ls-tree/2.34.1#_output_format
-
-		fields := strings.Split(line, " ")
-		// fields[0] is <mode> -- discard
-		// fields[1] is <type> -- blob or tree
-		// fields[2] is <object> TAB <file>
-		objectAndName := strings.Split(fields[2], "\t")
-
-		hash, err := NewHash(objectAndName[0])
+		objectType, objectID, name, err := parseLsTreeEntry(line)
 		if err != nil {
-			return nil, fmt.Errorf("invalid Git ID '%s' for path '%s': %w", objectAndName[0], objectAndName[1], err)
+			return nil, err
 		}
 
 		kind := gitstore.KindBlob
-		if fields[1] == "tree" {
+		if objectType == "tree" {
 			kind = gitstore.KindSubtree
 		}
 
-		entries = append(entries, TreeEntry{Path: objectAndName[1], ID: hash, Kind: kind})
+		entries = append(entries, TreeEntry{Path: name, ID: objectID, Kind: kind})
 	}
 
 	return entries, nil
+}
+
+// parseLsTreeEntry parses a single entry of `git ls-tree -z`.
+func parseLsTreeEntry(entry string) (string, Hash, string, error) {
+	// Without --format, the output is in the following format:
+	// <mode> SP <type> SP <object> TAB <file>
+	// From: https://git-scm.com/docs/git-ls-tree/2.34.1#_output_format
+	// <file> may itself contain spaces and tabs, so only the first tab
+	// separates it from the rest.
+
+	metadata, name, hasName := strings.Cut(entry, "\t")
+	if !hasName {
+		return "", nil, "", fmt.Errorf("unexpected entry '%s' in tree", entry)
+	}
+
+	fields := strings.Split(metadata, " ")
+	if len(fields) != 3 {
+		return "", nil, "", fmt.Errorf("unexpected entry '%s' in tree", entry)
+	}
+	// fields[0] is <mode> -- discard
+	// fields[1] is <type> -- blob or tree
+	// fields[2] is <object>
+
+	hash, err := NewHash(fields[2])
+	if err != nil {
+		return "", nil, "", fmt.Errorf("invalid Git ID '%s' for path '%s': %w", fields[2], name, err)
+	}
+
+	return fields[1], hash, name, nil
 }
 
 // GetAllFilesInTree returns all filepaths and the corresponding blob hashes in
@@ -126,39 +146,25 @@ func (r *Repository) GetAllFilesInTree(treeID Hash) (map[string]Hash, error) {
 	// of being on Ubuntu 22.04. 22.04 is still widely used in WSL2 environments.
 	// So, we're removing --format and parsing the output differently to handle
 	// the extra information for each entry we don't need.
-	stdOut, err := r.executor("ls-tree", "-r", treeID.String()).executeString()
+	// -z: file names are NUL terminated and never quoted, so that names with
+	// spaces, quotes, control or non-ASCII characters are read verbatim
+	entries, err := r.executor("ls-tree", "-r", "-z", treeID.String()).executeNULTerminated()
 	if err != nil {
 		return nil, fmt.Errorf("unable to enumerate all files in tree: %w", err)
 	}
 
-	if stdOut == "" {
-		return nil, nil // alternatively, just check if treeID is empty tree?
-	}
-
-	entries := strings.Split(stdOut, "\n")
 	if len(entries) == 0 {
-		return nil, nil
+		return nil, nil // alternatively, just check if treeID is empty tree?
 	}
 
 	files := map[string]Hash{}
 	for _, entry := range entries {
-		// Without --format, the output is in the following format:
-		// <mode> SP <type> SP <object> TAB <file>
-		// From: https://git-scm.com/docs/git-ls-tree/2.34.1#_output_format
-
-		entrySplit := strings.Split(entry, " ")
-		// entrySplit[0] is <mode> -- discard
-		// entrySplit[1] is <type> -- discard
-		// entrySplit[2] is <object> TAB <file> -- keep
-		entrySplit = strings.Split(entrySplit[2], "\t")
-
-		// <object> is really the object ID
-		hash, err := NewHash(entrySplit[0])
+		_, hash, name, err := parseLsTreeEntry(entry)
 		if err != nil {
-			return nil, fmt.Errorf("invalid Git ID '%s' for path '%s': %w", entrySplit[0], entrySplit[1], err)
+			return nil, err
 		}
 
-		files[entrySplit[1]] = hash
+		files[name] = hash
 	}
 
 	return files, nil
